@@ -79,8 +79,13 @@ func Main(c *engine.Check, scenarios []*vrt.Scenario, boundQuick, boundThorough 
 		if !w.Item(Case{Scenario: sc.Name, Choices: bl.prefix}) {
 			return
 		}
-		e := vrt.NewExplorer(bound)
+		eb := bound + sc.BoundDelta
+		if eb < 0 {
+			eb = 0
+		}
+		e := vrt.NewExplorer(eb)
 		e.Cache = vrt.NewCache()
+		w.HistN(fmt.Sprintf("bound:%s=%d", sc.Name, eb), 1)
 		e.Deadline = deadline
 		e.Explore(sc, bl.prefix)
 		st := e.Stats
